@@ -1483,6 +1483,104 @@ fn replay(ctx: &Ctx, r: &Value) -> Option<String> {
     }
 }
 
+// ---------------------------------------------------------------------------------------------
+// leg server-accepts-routes: the route table of a server
+// ---------------------------------------------------------------------------------------------
+
+struct AgentDef;
+
+impl swimos_api::agent::Agent for AgentDef {
+    fn run(
+        &self,
+        _route: RouteUri,
+        _route_params: HashMap<String, String>,
+        _config: swimos_api::agent::AgentConfig,
+        _context: Box<dyn swimos_api::agent::AgentContext + Send>,
+    ) -> futures::future::BoxFuture<'static, swimos_api::agent::AgentInitResult> {
+        panic!("not runnable")
+    }
+}
+
+/// Does the real `ServerBuilder` accept this route table? `Err` = machinery trouble.
+fn server_accepts(table: &[&str]) -> Result<bool, String> {
+    let table: Vec<String> = table.iter().map(|s| s.to_string()).collect();
+    std::thread::spawn(move || {
+        let rt = tokio::runtime::Builder::new_current_thread().enable_all().build().map_err(|e| e.to_string())?;
+        rt.block_on(async move {
+            let mut b = swimos_server_app::ServerBuilder::with_plane_name("plane");
+            for t in &table {
+                let p = RoutePattern::parse_str(t).map_err(|e| format!("{}: {:?}", t, e))?;
+                b = b.add_route(p, AgentDef);
+            }
+            match b.build().await {
+                Ok(_) => Ok(true),
+                Err(swimos_server_app::ServerBuilderError::BadRoutes(_)) => Ok(false),
+                Err(e) => Err(format!("{}", e)),
+            }
+        })
+    })
+    .join()
+    .unwrap_or_else(|_| Err("panic".into()))
+}
+
+/// Every table of two routes (the same text twice included) and of three routes with an unrelated
+/// one in the middle, over a small pool: the server refuses the table exactly when two of its
+/// routes are ambiguous - so that a server that accepted its routes resolves every URI to at most
+/// one agent definition.
+fn run_server_tables(ctx: &Ctx, out: &mut Sink) {
+    let t0 = Instant::now();
+    let pool = ["/a", "/:x", "/a/:x", "/a/b", "/:x/b", "swim:/a", "/%61", "/é", "/a/:y", "/b", "/unit/:id", "swim:/a/b"];
+    let mut tables: Vec<Vec<&str>> = vec![];
+    for p in pool {
+        for q in pool {
+            tables.push(vec![p, q]);
+            tables.push(vec![p, "/zz/zz/zz", q]);
+        }
+    }
+    let results = vcommon::par_map(&tables, vcommon::ncpu(), |_, t| {
+        let accepted = server_accepts(t);
+        let pats: Vec<RoutePattern> = t.iter().map(|s| RoutePattern::parse_str(s).unwrap()).collect();
+        let mut amb = false;
+        for i in 0..pats.len() {
+            for j in (i + 1)..pats.len() {
+                amb |= RoutePattern::are_ambiguous(&pats[i], &pats[j]);
+            }
+        }
+        (accepted, amb)
+    });
+    let mut evals = 0u64;
+    for (t, (accepted, amb)) in tables.iter().zip(results) {
+        evals += 1;
+        match accepted {
+            Err(e) => vcommon::machinery_failure(&format!("server-accepts-routes: {:?}: {}", t, e)),
+            Ok(acc) => {
+                if acc == amb {
+                    let same_text = t.first() == t.last();
+                    let what = format!("route table {:?}: the server {} it although the routes {} pairwise ambiguous", t, if acc { "accepted" } else { "refused" }, if amb { "are" } else { "are not" });
+                    out.push(Collected {
+                        leg: "server-accepts-routes".into(),
+                        sig: format!("law=server_refuses_iff_ambiguous got={} same_text={} routes={}", if acc { "accepted" } else { "refused" }, same_text, t.len()),
+                        detail: json!({"what": what, "example": t, "replay": {"table": t}}),
+                    });
+                }
+            }
+        }
+    }
+    ctx.add_leg(Leg {
+        name: "server-accepts-routes".into(),
+        engine: "E4-enum".into(),
+        states: tables.len() as u64,
+        transitions: evals * 2,
+        evaluations: evals,
+        distinct_nontrivial: tables.iter().filter(|t| t.first() == t.last()).count() as u64,
+        rule: "every route table of two routes from the pool (the same text twice included), with and without an unrelated route between them, given to the real ServerBuilder; non-trivial = tables with the same pattern text twice".into(),
+        samples: vec![json!(["/unit/:id", "/unit/:id"]), json!(["swim:/a/b", "/zz/zz/zz", "swim:/a/b"])],
+        exhaustive: true,
+        bounds: json!({"pool": pool, "table_sizes": [2, 3]}),
+        wall_s: t0.elapsed().as_secs_f64(),
+    });
+}
+
 fn main() {
     std::panic::set_hook(Box::new(|_| {}));
     let ctx = Ctx::from_env("C18");
@@ -1541,6 +1639,7 @@ fn main() {
     let mut out = Sink::default();
     run_malformed(&ctx, &mut out);
     run_ascii_values(&ctx, &mut out);
+    run_server_tables(&ctx, &mut out);
     for sp in &spaces {
         let cap = if quick {
             40.0
